@@ -17,6 +17,12 @@ func (p *Program) extraCoverage(prop string) map[string]interface{} {
 			"stats":  p.bounded,
 		}}
 	}
+	if p.audits != nil {
+		out["assumption_audits"] = p.audits
+	}
+	if p.selftest != nil {
+		out["selftest_must_fail_corpus"] = p.selftest
+	}
 	if len(p.verifExempt) > 0 && (prop == "C12" || prop == "C07" || prop == "C13") {
 		out["verif_tagged_uses_of_package_state"] = p.verifExempt
 	}
